@@ -1311,8 +1311,39 @@ func famProof(r *Rng, o *Out, tier string) {
 		var ops, outs []string
 		encoded := false
 		var lastEnc []byte
+		bound := false
+		parentTok, _ := macaroon.New(r.Bytes(6), "https://api.fly.io/v1", r.Bytes(32))
+		parentTok.Add(c3)
+		parentBytes := mustEnc(parentTok)
 		for s, ss := 0, 1+r.Intn(10); s < ss; s++ {
-			switch r.Intn(7) {
+			switch r.Intn(8) {
+			case 7:
+				// binding adds a caveat too: refused once the proof is final (on the object and on decoded copies)
+				target := dm
+				onCopy := encoded && r.Bool()
+				if onCopy {
+					if cp, err := macaroon.Decode(mustEnc(dm)); err == nil {
+						target = cp
+					}
+				}
+				err := target.Bind(parentBytes)
+				if onCopy {
+					ops = append(ops, "(bindcopy "+hx(parentBytes)+")")
+				} else {
+					ops = append(ops, "(bind "+hx(parentBytes)+")")
+				}
+				if err != nil {
+					outs = append(outs, "bind:"+addClass(err))
+				} else {
+					outs = append(outs, "bind:ok")
+					if encoded {
+						o.emit("(const sound)", "bind-accepted-after-encode")
+					}
+					if !onCopy {
+						bound = true
+					}
+				}
+				o.count(fmt.Sprintf("bind.encoded=%v.copy=%v", encoded, onCopy))
 			case 6:
 				// an Encode that FAILS (a caveat that stopped being serialisable after it was added): the proof is
 				// finalised by that call all the same, exactly once - later encodings must not finalise again
@@ -1392,7 +1423,7 @@ func famProof(r *Rng, o *Out, tier string) {
 				ops = append(ops, "verify")
 				if err != nil {
 					outs = append(outs, "verify:"+verifyClass(err))
-					if encoded {
+					if encoded && !bound { // (a bound proof does not verify on its own: it carries a binding caveat)
 						o.emit("(const sound)", "finalised-proof-not-verifiable:"+verifyClass(err))
 					}
 				} else {
